@@ -482,12 +482,12 @@ Qed.
 (* ================= non-vacuity: a concrete stream through the instantiated classification ================= *)
 Definition demoA : absfns :=
   {| a_json_err := fun _ => [107; 101; 121; 32; 109; 117; 115; 116; 32; 98; 101; 32; 97; 32; 115; 116; 114; 105; 110; 103; 32; 97; 116; 32; 108; 105; 110; 101; 32; 49; 32; 99; 111; 108; 117; 109; 110; 32; 50];
-     a_fmt_float := fun t => if lN_eqb t [49; 46; 53; 48] then Some [49; 46; 53] else None;
+     a_fmt_float := fun t => if lN_eqb t [49; 46; 53; 48] || lN_eqb t [49; 46; 53] then Some [49; 46; 53] else None;
      a_validate := fun _ => ([], []) |}.
 
 Lemma demoA_fmt_ok : fmt_ok demoA.
 Proof.
-  intros t t' H. cbn [demoA a_fmt_float] in H. destruct (lN_eqb t _); [|discriminate]. injection H as <-. reflexivity.
+  intros t t' H. cbn [demoA a_fmt_float] in H. destruct (lN_eqb t _ || lN_eqb t _); [|discriminate]. injection H as <-. reflexivity.
 Qed.
 
 (* CRLF and LF blocks: a text delta with an escaped character, keys out of order, a duplicate key and a value spread over
@@ -562,3 +562,173 @@ Proof. vm_compute. repeat split; discriminate. Qed.
 From RipV Require Import Model.SseFacts.
 Lemma line_step_is_rules cl s l : line_step cl s l = line_step_gen cl LINE_RULES CR s l.
 Proof. reflexivity. Qed.
+
+(* ================= the Value is canonical: canon is idempotent on its own output ================= *)
+Lemma str_cmp_eq a : forall b, str_cmp a b = Eq <-> a = b.
+Proof.
+  induction a as [|x a IH]; intros [|y b]; cbn [str_cmp]; try (split; [discriminate|discriminate]); [split; reflexivity|].
+  destruct (x ?= y) eqn:E.
+  - apply N.compare_eq in E. subst y. rewrite IH. split; [intros ->; reflexivity|intros H; injection H as H; exact H].
+  - split; [discriminate|]. intros H. injection H as H _. subst y. rewrite N.compare_refl in E. discriminate.
+  - split; [discriminate|]. intros H. injection H as H _. subst y. rewrite N.compare_refl in E. discriminate.
+Qed.
+
+Lemma str_cmp_antisym a : forall b, str_cmp b a = CompOpp (str_cmp a b).
+Proof.
+  induction a as [|x a IH]; intros [|y b]; cbn [str_cmp]; try reflexivity.
+  rewrite (N.compare_antisym x y). destruct (x ?= y); cbn [CompOpp]; [apply IH|reflexivity|reflexivity].
+Qed.
+
+Lemma str_cmp_trans a : forall b c, str_cmp a b = Lt -> str_cmp b c = Lt -> str_cmp a c = Lt.
+Proof.
+  induction a as [|x a IH]; intros [|y b] [|z c]; cbn [str_cmp]; try discriminate; try reflexivity.
+  destruct (x ?= y) eqn:E1; destruct (y ?= z) eqn:E2; intros H1 H2; try discriminate.
+  - apply N.compare_eq in E1, E2. subst. rewrite N.compare_refl. eapply IH; eassumption.
+  - apply N.compare_eq in E1. subst. rewrite E2. reflexivity.
+  - apply N.compare_eq in E2. subst. rewrite E1. reflexivity.
+  - rewrite (N.lt_trans x y z E1 E2 : (x ?= z) = Lt). reflexivity.
+Qed.
+
+(* keys strictly ascending *)
+Fixpoint keys_sorted (kvs : list (str * json)) : Prop :=
+  match kvs with
+  | [] => True
+  | (k, _) :: r => match r with [] => True | (k', _) :: _ => str_cmp k k' = Lt end /\ keys_sorted r
+  end.
+Definition all_below (k : str) (kvs : list (str * json)) : Prop := Forall (fun kv => str_cmp (fst kv) k = Lt) kvs.
+
+Lemma keys_sorted_head_below k v r : keys_sorted ((k, v) :: r) -> Forall (fun kv => str_cmp k (fst kv) = Lt) r.
+Proof.
+  revert k v. induction r as [|[k' v'] r IH]; intros k v H; [constructor|].
+  cbn [keys_sorted] in H. destruct H as [H1 H2]. constructor; [exact H1|].
+  specialize (IH k' v' H2). eapply Forall_impl; [|exact IH]. intros kv Hkv. eapply str_cmp_trans; eassumption.
+Qed.
+
+Lemma obj_insert_sorted k v m : keys_sorted m -> keys_sorted (obj_insert k v m).
+Proof.
+  induction m as [|[k' v'] m IH]; intros H; cbn [obj_insert]; [cbn; auto|].
+  destruct (str_cmp k k') eqn:E.
+  - apply str_cmp_eq in E. subst k'. cbn [keys_sorted] in *. exact H.
+  - cbn [keys_sorted] in *. split; [exact E|exact H].
+  - cbn [keys_sorted] in H. destruct H as [H1 H2]. specialize (IH H2).
+    assert (G : str_cmp k' k = Lt) by (rewrite str_cmp_antisym, E; reflexivity).
+    destruct m as [|[k2 v2] m]; cbn [obj_insert] in *.
+    + cbn [keys_sorted]. auto.
+    + destruct (str_cmp k k2) eqn:E2; cbn [keys_sorted] in *.
+      * apply str_cmp_eq in E2. subst k2. split; [exact G|exact IH].
+      * split; [exact G|exact IH].
+      * split; [exact H1|exact IH].
+Qed.
+
+(* inserting a key above all present ones appends *)
+Lemma obj_insert_above k v m : all_below k m -> obj_insert k v m = m ++ [(k, v)].
+Proof.
+  induction m as [|[k' v'] m IH]; intros H; [reflexivity|].
+  inversion H as [|? ? H1 H2]; subst. cbn [fst] in H1. cbn [obj_insert app].
+  rewrite str_cmp_antisym, H1. cbn [CompOpp]. rewrite IH by exact H2. reflexivity.
+Qed.
+
+Section Canonical.
+Variable A : absfns.
+(* the printer's output is a fixpoint of the number normalisation ("100.0" is re-spelled "100.0") *)
+Definition fmt_idem : Prop := forall t t', a_fmt_float A t = Some t' -> norm_num A t' = Some t'.
+
+Fixpoint canonical (j : json) : Prop :=
+  match j with
+  | JNum t => norm_num A t = Some t
+  | JArr l => (fix go (l : list json) : Prop := match l with [] => True | x :: r => canonical x /\ go r end) l
+  | JObj kvs => keys_sorted kvs
+                /\ (fix go (l : list (str * json)) : Prop := match l with [] => True | (_, x) :: r => canonical x /\ go r end) kvs
+  | _ => True
+  end.
+Definition all_canonical (l : list json) : Prop := Forall canonical l.
+Definition vals_canonical (kvs : list (str * json)) : Prop := Forall (fun kv => canonical (snd kv)) kvs.
+
+Lemma canonical_arr l : canonical (JArr l) <-> all_canonical l.
+Proof.
+  cbn [canonical]. induction l as [|x l IH]; [split; [constructor|auto]|].
+  split.
+  - intros [H1 H2]. constructor; [exact H1|apply IH; exact H2].
+  - intros H. inversion H as [|? ? H1 H2]; subst. split; [exact H1|apply IH; exact H2].
+Qed.
+Lemma canonical_obj kvs : canonical (JObj kvs) <-> keys_sorted kvs /\ vals_canonical kvs.
+Proof.
+  cbn [canonical]. apply and_iff_compat_l. induction kvs as [|[k x] l IH]; [split; [constructor|auto]|].
+  split.
+  - intros [H1 H2]. constructor; [exact H1|apply IH; exact H2].
+  - intros H. inversion H as [|? ? H1 H2]; subst. split; [exact H1|apply IH; exact H2].
+Qed.
+
+Lemma obj_insert_vals k v m : canonical v -> vals_canonical m -> vals_canonical (obj_insert k v m).
+Proof.
+  intros Hv. induction m as [|[k' v'] m IH]; intros Hm; cbn [obj_insert].
+  - constructor; [exact Hv|constructor].
+  - inversion Hm as [|? ? H1 H2]; subst. unfold vals_canonical in *.
+    destruct (str_cmp k k'); [constructor; [exact Hv|exact H2] | constructor; [exact Hv|exact Hm] | constructor; [exact H1|exact (IH H2)]].
+Qed.
+
+Lemma canon_canonical : fmt_idem -> forall j v, canon A j = Some v -> canonical v.
+Proof.
+  intros HA. induction j as [| b | t | s | l IH | kvs IH] using JsonProofs.json_ind'; intros v Hc.
+  - injection Hc as <-. exact I.
+  - injection Hc as <-. exact I.
+  - cbn [canon] in Hc. destruct (norm_num A t) as [t'|] eqn:E; [|discriminate]. injection Hc as <-.
+    cbn [canonical]. unfold norm_num in E. destruct (plain_int t) eqn:P.
+    + injection E as <-. unfold norm_num. rewrite P. reflexivity.
+    + apply HA in E. exact E.
+  - injection Hc as <-. exact I.
+  - rewrite canon_arr in Hc. destruct (canon_list A l) as [l'|] eqn:E; [|discriminate]. injection Hc as <-.
+    apply canonical_arr. revert l' E. induction IH as [|x l Hx _ IHl]; intros l' E.
+    + injection E as <-. constructor.
+    + cbn [canon_list] in E. destruct (canon A x) as [x'|] eqn:Ex; [|discriminate].
+      destruct (canon_list A l) as [r'|]; [|discriminate]. injection E as <-.
+      constructor; [exact (Hx x' eq_refl)|exact (IHl r' eq_refl)].
+  - rewrite canon_obj in Hc. destruct (canon_members A kvs []) as [m|] eqn:E; [|discriminate]. injection Hc as <-.
+    apply canonical_obj.
+    assert (G : forall acc m, keys_sorted acc -> vals_canonical acc -> canon_members A kvs acc = Some m ->
+                keys_sorted m /\ vals_canonical m).
+    { clear m E. induction IH as [|[k x] r Hx _ IHr]; intros acc m Hs Hv E.
+      - injection E as <-. auto.
+      - cbn [canon_members] in E. cbn [snd] in Hx. destruct (canon A x) as [x'|] eqn:Ex; [|discriminate].
+        eapply IHr; [| |exact E]; [apply obj_insert_sorted; exact Hs|apply obj_insert_vals; [exact (Hx x' eq_refl)|exact Hv]]. }
+    eapply G; [| |exact E]; [exact I|constructor].
+Qed.
+
+Lemma canon_of_canonical : forall v, canonical v -> canon A v = Some v.
+Proof.
+  induction v as [| b | t | s | l IH | kvs IH] using JsonProofs.json_ind'; intros Hc; try reflexivity.
+  - cbn [canon canonical] in *. rewrite Hc. reflexivity.
+  - rewrite canon_arr. apply canonical_arr in Hc.
+    assert (E : canon_list A l = Some l).
+    { induction IH as [|x l Hx _ IHl]; [reflexivity|]. inversion Hc as [|? ? H1 H2]; subst.
+      cbn [canon_list]. rewrite (Hx H1), (IHl H2). reflexivity. }
+    rewrite E. reflexivity.
+  - rewrite canon_obj. apply canonical_obj in Hc. destruct Hc as [Hs Hv].
+    assert (G : forall acc, (forall kv, In kv kvs -> all_below (fst kv) acc) -> canon_members A kvs acc = Some (acc ++ kvs)).
+    { clear - IH Hs Hv. induction IH as [|[k x] r Hx _ IHr]; intros acc Hb; [rewrite app_nil_r; reflexivity|].
+      inversion Hv as [|? ? H1 H2]; subst. cbn [snd] in *. cbn [canon_members]. rewrite (Hx H1).
+      rewrite obj_insert_above by (apply (Hb (k, x)); left; reflexivity).
+      pose proof (keys_sorted_head_below _ _ _ Hs) as Hh.
+      rewrite IHr.
+      - rewrite <- app_assoc. reflexivity.
+      - cbn [keys_sorted] in Hs. exact (proj2 Hs).
+      - exact H2.
+      - intros kv Hin. apply Forall_app. split; [apply Hb; right; exact Hin|].
+        constructor; [|constructor]. cbn [fst]. rewrite Forall_forall in Hh. exact (Hh kv Hin). }
+    rewrite (G []); [reflexivity|]. intros kv _. constructor.
+Qed.
+
+(* the data of a frame, printed and read back by serde_json, is the same Value *)
+Theorem value_round_trip : fmt_ok A -> fmt_idem -> forall ev raw v errs rerrs dl,
+  jclassify A ev raw = CEvent v errs rerrs dl -> parse_value_of A (print v) = Some v.
+Proof.
+  intros H1 H2 ev raw v errs rerrs dl Hc.
+  destruct (jclassify_event _ _ _ _ _ _ _ H1 Hc) as ((j & Hp & Hcan) & Hr & _).
+  unfold parse_value_of. rewrite Hr. apply canon_of_canonical. eapply canon_canonical; eassumption.
+Qed.
+End Canonical.
+
+Lemma demoA_fmt_idem : fmt_idem demoA.
+Proof.
+  intros t t' H. cbn [demoA a_fmt_float] in H. destruct (lN_eqb t _ || lN_eqb t _); [|discriminate]. injection H as <-. reflexivity.
+Qed.
